@@ -64,6 +64,9 @@ P = {
  "C11": ("value provenance of returned URLs (membership in the argument slice), sibling agreement of codecs, path rules over both ServeHTTPs, decision tables and edge guards with linear normal forms in the codecs",
          "Every FindURL implementation returns only elements of the pool slice it was given; hash minting and lookup feed the same function of the URL to the hash, two-way codecs compare {Scheme,Host,Path} through the shared comparator; a bad cookie never causes a return or error response before normal selection; pinning only on the present edge with a copied URL, without calling the selection routine; a fresh cookie for the selection's URL is issued before forwarding; ErrNoCookie is not an error; AES authentication failure / expiry return errors and the decoded bytes are sliced only when long enough; the fallback codec consults its second codec whenever the first found nothing. Level 'other'.",
          "NOT decided: cryptographic unforgeability (AES-GCM), round trip of url.Parse(u.String()) for exotic URLs. Trusted: go/ssa, analyser.", "3/C11"),
+ "C14": ("key provenance (value flow from the extractor into keyed accesses), backward slice of the admission comparison by normal-form atoms, effect audit of the bucket code, edge guards / call-graph who-may-call in the TTL map",
+         "Non-interference by construction: TTL map and connection-counter keys are the extractor's token unchanged; the admission comparison mentions only this source's count, the maximum and the amount; bucket code touches no package-level or limiter state; eviction is requested only by the insertion of a new key, at capacity, for one entry, expired entries first and then the heap minimum ordered strictly by expiry; Get deletes only its own expired entry and its own heap item, PriorityQueue.Remove is unconditional. Level 'other'.",
+         "NOT decided: heap correctness (container/heap); the equality 'projection = solo run' is the paper consequence of the rules. Trusted: go/ssa, analyser.", "3/C14"),
 }
 
 NA = {}
